@@ -596,7 +596,7 @@ theorem C07_signal_during_stop_served (wait info crit : Bool) (s : Sig) (pr : Bo
 example : let a := (CS.init { queue := [.stmt 1], written := [.stmt 0] }).run stopSeqCurrent true [.stopper, .stopper, .bgWrite 1]
     a.pc < 6 ∧ (a.run stopSeqCurrent true [.log 2]).serving = true := by decide
 
-/-- **FINDING F26 — the points the current code does not cover**: if `stop()` has not returned at A but the backend
+/-- **FINDING F27 — the points the current code does not cover**: if `stop()` has not returned at A but the backend
     thread has already taken its last look at the queues at B, the handler still takes the frontend branch, enqueues
     its notice(s) and waits in `flush_log` for a backend thread that never looks again: the process hangs, the notice(s)
     — and whatever the thread completed after that last look — stay queued -/
@@ -652,10 +652,10 @@ theorem C07_window_keeps_earlier_statements (earlier : List Nat) (w q : List Ite
   rw [hq', hl] at hc
   simpa [CS.init, hsplit] using hc
 
-/-- F26 witnesses on the current order. Option on: stop requested, the backend finds the queues empty and goes for its
+/-- F27 witnesses on the current order. Option on: stop requested, the backend finds the queues empty and goes for its
     final flush, SIGSEGV on the thread → hang, notices never written. Option off: the backend leaves with the thread's
     statement still queued → that statement is lost as well. -/
-theorem C07_F26_signal_after_last_look :
+theorem C07_F27_signal_after_last_look :
     (let a := (CS.init { queue := [], written := [.stmt 0] }).run stopSeqCurrent true [.stopper, .stopper, .bgLastCheck]
      signalDuringStop true true true .segv false a a = ({ queue := [.notice, .critical], written := [.stmt 0] }, .hangs)) ∧
     (let a := (CS.init { queue := [.stmt 1], written := [.stmt 0] }).run stopSeqCurrent false [.stopper, .bgLastCheck]
